@@ -284,6 +284,43 @@ func runC35(c *Ctx) {
 		}
 		c.check(ok, "C35.same-weight", "the P-Rep accumulates the same amount × period", fn.Pos(), "accumulatedVoted += amount × period", "P-Rep side accumulation differs")
 	}
+	// both sides accumulate every vote — whatever its type or sign
+	if fn := c.mustFn(pk, "Voter", "applyVoting"); fn != nil {
+		tr, skip := pathAvoiding(fn, fn.Blocks[0].Instrs[0], isReturn, func(in ssa.Instruction) bool { _, ok := in.(*ssa.MapUpdate); return ok })
+		c.check(!skip, "C35.same-weight", "the voter accumulates every vote it is handed (either sign)", fn.Pos(), "no path round the accumulation", "a vote can be dropped on the voter side ("+traceString(tr)+") while the P-Rep side counts it: the voter's part and the P-Rep's whole are sums over different sets")
+	}
+	if fn := c.mustFn(pk, "PRep", "ApplyVote"); fn != nil {
+		isAcc := func(in ssa.Instruction) bool {
+			st, ok := in.(*ssa.Store)
+			if !ok {
+				return false
+			}
+			fa, ok := st.Addr.(*ssa.FieldAddr)
+			return ok && fieldName(fa.X.Type(), fa.Field) == "accumulatedVoted"
+		}
+		tr, skip := pathAvoiding(fn, fn.Blocks[0].Instrs[0], isReturn, isAcc)
+		c.check(!skip, "C35.same-weight", "the P-Rep accumulates every vote it is handed (delegation and bond, either sign)", fn.Pos(), "no path round the accumulation", "a vote can change bonded/delegated without entering accumulatedVoted ("+traceString(tr)+"): the voters' parts then sum to more than the whole they are divided by")
+	}
+	// the total power is summed after the last change to the per-P-Rep powers
+	nTot := 0
+	for _, fn := range c.pkgFuncs(pk) {
+		for _, up := range c.calls(fn, byMethod("UpdateTotalAccumulatedPower")) {
+			nTot++
+			late := ""
+			for _, cs := range c.calls(fn, func(cc *ssa.CallCommon) bool {
+				n := calleeName(cc)
+				return strings.HasSuffix(n, "PRepInfo).ApplyVote") || strings.HasSuffix(n, "PRepInfo).SetStatus") || strings.HasSuffix(n, "PRepInfo).InitAccumulated")
+			}) {
+				if _, after := pathAvoiding(fn, up.Instr, func(in ssa.Instruction) bool { return in == ssa.Instruction(cs.Instr) }, nil); after {
+					late = c.pos(cs.Pos())
+				}
+			}
+			c.check(late == "", "C35.prep-share", fnName(fn)+": the total accumulated power is summed after the last change to a P-Rep's power", up.Pos(), "events first, total afterwards", "a P-Rep's accumulated power still changes at "+late+" after the total was summed: the parts add up to more than the whole the budget is divided by")
+		}
+	}
+	if nTot == 0 {
+		c.undecided("C35.prep-share", "UpdateTotalAccumulatedPower call", token.NoPos, "not found")
+	}
 	if fn := c.mustFn(pk, "PRep", "InitAccumulated"); fn != nil {
 		ok := false
 		for _, fs := range fieldStores([]*ssa.Function{fn}, "PRep", "accumulatedVoted") {
